@@ -70,14 +70,17 @@ Init == /\ objs = [i \in 1..NObj |-> NoObj]
 Log(rec) == hist' = Append(hist, [op |-> rec, cache |-> cache', gens |-> gens'])
 Snapshot(c, gg) == [cache |-> c, gens |-> [k \in DOMAIN gg |-> gg[k]]]
 
-Construct(i, c, g) ==
+\* kw = 1: the constructor is also given step options (step_ratio, num_steps) although `step` is a generator instance; they
+\* are not the generator's business: constructing an object never changes a generator other objects hold
+Construct(i, c, g, kw) ==
   /\ Len(hist) < MaxOps
+  /\ (kw = 1 => g # 0)
   /\ ~objs[i].alive                  \* each object slot is constructed once per history
   /\ objs' = [objs EXCEPT ![i] = [alive |-> TRUE, m |-> Cfg(c).m, n |-> Cfg(c).n, o |-> Cfg(c).o, g |-> g]]
   /\ gens' = IF g = 0 THEN [k \in (DOMAIN gens) \ {10 + i} |-> gens[k]] ELSE gens
   /\ UNCHANGED cache
   /\ last' = [op |-> "construct"]
-  /\ Log([op |-> "construct", obj |-> i, cfg |-> c, gen |-> g, m |-> Cfg(c).m, n |-> Cfg(c).n, o |-> Cfg(c).o])
+  /\ Log([op |-> "construct", obj |-> i, cfg |-> c, gen |-> g, kw |-> kw, m |-> Cfg(c).m, n |-> Cfg(c).n, o |-> Cfg(c).o])
 
 Call(i, x) ==
   /\ Len(hist) < MaxOps
@@ -142,7 +145,7 @@ Prepopulate(c, g) ==     \* somebody else (a throw-away rule object) fills the c
          /\ Log([op |-> "prepopulate", m |-> ob.m, n |-> ob.n, o |-> ob.o, ratio |-> RatioTag(g, ob.n), key |-> KeyOf(ob)])
 
 Next ==
-  \/ \E i \in 1..NObj, c \in 1..NCfg, g \in {0} \cup SharedGens : Construct(i, c, g)
+  \/ \E i \in 1..NObj, c \in 1..NCfg, g \in {0} \cup SharedGens, kw \in {0, 1} : Construct(i, c, g, kw)
   \/ \E i \in 1..NObj, x \in Xs : Call(i, x)
   \/ \E i, j \in 1..NObj, x \in {1, 2} : Nested(i, j, x)
   \/ \E i \in 1..NObj, v \in 0..3 : SetN(i, v)
